@@ -74,3 +74,7 @@ package actor
 //@ loop (*eventStream).Publish#1
 //@   invariant forall p string :: gcount(tells, p) == old(gcount(tells, p)) + (seen(p) ? 1 : 0)
 //@   invariant forall p string :: seen(p) ==> p in subscribers
+
+// ownership: both tables (and their inner maps) may only be touched while holding es.mu
+//@ guarded (*eventStream).subscribers by mu deep
+//@ guarded (*eventStream).subscriberTypes by mu deep
